@@ -7,7 +7,7 @@ import (
 	"github.com/markusressel/fan2go/internal/zzv"
 )
 
-//zzv:bound X1 = lockset obligation on the sequential analysis code of one fan (real RunInitializationSequence: PWM-map sweep 255..0 and RPM-curve measurement over all distinct values, hwmon fan that reads back what is written, with and without an RPM sensor, constant RPM reading): with runFanInitializationInParallel = false every PWM write of the analysis happens while InitializationSequenceMutex is held and the mutex is not released between the first and the last analysis write; by the semantics of a mutex the analysis intervals of any number of fans are then disjoint under every schedule
+//zzv:bound X1 = lockset obligation on the sequential analysis code of one fan (real RunInitializationSequence: PWM-map sweep 255..0 and RPM-curve measurement over all distinct values, hwmon fan that reads back what is written, with and without an RPM sensor, constant RPM reading; started with the mutex free or held by another fan's analysis that ends later): with runFanInitializationInParallel = false every PWM write of the analysis happens while InitializationSequenceMutex is held and the mutex is not released between the first and the last analysis write; by the semantics of a mutex the analysis intervals of any number of fans are then disjoint under every schedule
 //zzv:bound X2 = with the option true the analysis completes without touching the mutex (analyses may overlap)
 //zzv:outside exclusion achieved by anything other than InitializationSequenceMutex (the check would then be inconclusive, not a violation); fairness and start order of the per-fan goroutines
 //zzv:stub sync.Mutex.Lock/Unlock drive a ghost 'held' flag; time.Sleep is a no-op
@@ -46,6 +46,10 @@ func zzAnalysis(parallel bool, hasRpm bool) (*zzLockSpy, error) {
 
 func ZZ_C16_X1_AnalysisHoldsTheLock() {
 	hasRpm := zzv.Choice("hasRpmSensor", 2) == 1
+	if zzv.Choice("anotherAnalysisRunning", 2) == 1 {
+		// another fan's analysis holds the mutex when this one starts and finishes a little later
+		zzv.MutexHoldByOther(&InitializationSequenceMutex, 40)
+	}
 	spy, err := zzAnalysis(false, hasRpm)
 	zzv.Assert(err == nil, "X1.analysis_completes")
 	zzv.Record("analysisWrites", len(spy.held))
